@@ -41,7 +41,7 @@ def Cmd.fired (c : Cmd) : Nat := c.nat "@fired" 0
 def fmtList (xs : List Nat) : String := "[" ++ ",".intercalate (xs.map toString) ++ "]"
 def fmtStat (s : Stat) : String := s!"st={s.code}"
 def fmtMem (m : Mem) : String :=
-  s!"mem=a{m.nalloc} f{m.nfree} r{m.nrefused} live={m.live} libc=a{m.libc} f0"
+  s!"mem=a{m.nalloc} f{m.nfree} r{m.nrefused} live={m.live} libc=a{m.lalloc} f{m.lfree} llive={m.liveLibc}"
 def fmtFlags (inv : Bool) (m : Mem) : String :=
   s!"inv={if inv then 1 else 0} fault={if m.fault then 1 else 0}"
 
